@@ -10,8 +10,11 @@ import warnings
 
 
 def conf_for(token):
-    from beartype import BeartypeConf, BeartypeDecorPlace
+    from beartype import BeartypeConf, BeartypeDecorPlace, BeartypeStrategy
     return {
+        'strategy_o0': BeartypeConf(strategy=BeartypeStrategy.O0),
+        'strategy_on': BeartypeConf(strategy=BeartypeStrategy.On),
+        'tower': BeartypeConf(is_pep484_tower=True),
         'default': BeartypeConf(),
         'pep526off': BeartypeConf(claw_is_pep526=False),
         'place_first': BeartypeConf(claw_decor_place_func=BeartypeDecorPlace.FIRST, claw_decor_place_type=BeartypeDecorPlace.FIRST),
